@@ -109,8 +109,10 @@ type vfc28Bucket struct {
 	stopped  bool
 	injected *vfc28Op
 
-	applyMu sync.Mutex         // serialises mutation + online check
-	onMut   func(op vfc28Op)   // called with applyMu held after a mutation took effect
+	applyMu  sync.Mutex       // serialises mutation + online check
+	onMut    func(op vfc28Op) // called with applyMu held after a mutation took effect
+	lexIter  bool             // Iter hands out entries in plain lexicographic order, as GCS/S3/Azure/filesystem listings do (the in-memory bucket lists plain objects before sub-directories)
+	beforeOp func(op vfc28Op) // called (no lock held) before an admitted read is served: lets the harness act as a concurrent actor on the bucket
 }
 
 func vfc28NewBucket(inner *objstore.InMemBucket) *vfc28Bucket { return &vfc28Bucket{inner: inner} }
@@ -187,12 +189,15 @@ func (b *vfc28Bucket) injectedOp() *vfc28Op {
 }
 
 func (b *vfc28Bucket) read(ctx context.Context, kind, name string) error {
-	_, act := b.begin(ctx, kind, name, false)
+	op, act := b.begin(ctx, kind, name, false)
 	switch act {
 	case vfc28Lost:
 		return vfc28ErrInjected
 	case vfc28Ctx:
 		return ctx.Err()
+	}
+	if b.beforeOp != nil {
+		b.beforeOp(*op)
 	}
 	return nil
 }
@@ -232,6 +237,19 @@ func (b *vfc28Bucket) SupportedIterOptions() []objstore.IterOptionType {
 func (b *vfc28Bucket) Iter(ctx context.Context, dir string, f func(string) error, o ...objstore.IterOption) error {
 	if err := b.read(ctx, "iter", dir); err != nil {
 		return err
+	}
+	if b.lexIter {
+		var names []string
+		if err := b.inner.Iter(ctx, dir, func(n string) error { names = append(names, n); return nil }, o...); err != nil {
+			return err
+		}
+		sort.Strings(names)
+		for _, n := range names {
+			if err := f(n); err != nil {
+				return err
+			}
+		}
+		return nil
 	}
 	return b.inner.Iter(ctx, dir, f, o...)
 }
@@ -739,6 +757,117 @@ func vfc28DeleteScenario(id ulid.ULID, segs int, template map[string][]byte, wha
 	}
 }
 
+// vfc28ReplicationUnderOriginDeletion: the origin is not quiescent. While replicationScheme.execute runs, another actor
+// deletes the block from the ORIGIN bucket: at origin operation k of the replication (every k) the real block.Delete
+// runs on the origin - to completion, after marking, or interrupted after j of its own deletions (a deletion in
+// progress; every j) - and then the replication goes on. The invariant is the usual one, on the TARGET; replication
+// returning an error is fine. A second replication run on the then stable origin follows.
+func vfc28ReplicationUnderOriginDeletion(t *testing.T, r *vfkit.Run, c int, blk vfc28Blk, nBlocks int, srcObjs map[string][]byte) {
+	ctx := context.Background()
+	cnt := prometheus.NewCounter(prometheus.CounterOpts{Name: "vf"})
+	newOrigin := func() *objstore.InMemBucket {
+		in := objstore.NewInMemBucket()
+		if err := vfc28CopyInto(in, srcObjs); err != nil {
+			vfc28Fatal(t, r, "%v", err)
+		}
+		return in
+	}
+	type interference struct {
+		class  string // names the fingerprint
+		name   string
+		mark   bool
+		lex    bool // the deleter sees lexicographic listings
+		stopAt int  // operation of block.Delete at which the deleter stops (0: runs to completion)
+	}
+	inter := []interference{{class: "complete", name: "block.Delete-to-completion"}, {class: "complete", name: "MarkForDeletion+block.Delete-to-completion", mark: true}}
+	// the deleter's own operation sequence (for the in-progress variants), for both listing orders
+	for _, lex := range []bool{false, true} {
+		dl := vfc28NewBucket(newOrigin())
+		dl.lexIter = lex
+		if err := thanosblock.Delete(ctx, vfc28Logger, dl, blk.ID); err != nil {
+			vfc28Fatal(t, r, "plain delete: %v", err)
+		}
+		var mutSeqs []int
+		for _, o := range dl.opLog() {
+			if o.Mut && o.Outcome == "ok" {
+				mutSeqs = append(mutSeqs, o.Seq)
+			}
+		}
+		for j := 1; j < len(mutSeqs); j++ {
+			it := interference{class: "in-progress", name: fmt.Sprintf("block.Delete-in-progress(%d-of-%d-deletions-done)", j, len(mutSeqs)), stopAt: mutSeqs[j], mark: j%2 == 0, lex: lex}
+			if lex {
+				it.class, it.name = "in-progress(lexicographic-listing)", it.name+"/deleter-sees-lexicographic-listings"
+			}
+			inter = append(inter, it)
+		}
+	}
+	m, err := labels.NewMatcher(labels.MatchEqual, "vf", "blk")
+	if err != nil {
+		vfc28Fatal(t, r, "%v", err)
+	}
+	filter := NewBlockFilter(vfc28Logger, labels.Selector{m}, []compact.ResolutionLevel{compact.ResolutionLevelRaw}, []int{1, 2, 3}, nil).Filter
+	replicate := func(origin *vfc28Bucket, target *vfc28Bucket) error {
+		from := objstore.WithNoopInstr(origin)
+		fetcher, err := newMetaFetcher(vfc28Logger, from, nil,
+			thanosmodel.TimeOrDurationValue{Time: &vfc28MinT}, thanosmodel.TimeOrDurationValue{Time: &vfc28MaxT}, 4, false)
+		if err != nil {
+			return err
+		}
+		return newReplicationScheme(vfc28Logger, newReplicationMetrics(nil), filter, fetcher, from, target, nil).execute(ctx)
+	}
+	run := func(k int, it *interference) (*vfc28Exec, int) {
+		sc := &vfc28Scenario{driver: "replicate.execute+origin-quiescent", variant: "origin-quiescent", segs: blk.Segs}
+		if it != nil {
+			sc.driver = "replicate.execute+origin-block.Delete-" + it.class
+			sc.variant = fmt.Sprintf("source-blocks=%d/at-origin-op=%d/%s", nBlocks, k, it.name)
+		}
+		e := &vfc28Exec{r: r, c: c, sc: sc, deleting: map[string]bool{}, phase: "replication-run-with-concurrent-origin-deletion"}
+		e.bkt = vfc28NewBucket(objstore.NewInMemBucket())
+		e.bkt.onMut = e.check
+		inner := newOrigin()
+		origin := vfc28NewBucket(inner)
+		if it != nil {
+			origin.beforeOp = func(op vfc28Op) {
+				if op.Seq != k {
+					return
+				}
+				if it.mark {
+					_ = thanosblock.MarkForDeletion(ctx, vfc28Logger, inner, blk.ID, "vf", cnt)
+				}
+				del := vfc28NewBucket(inner)
+				del.lexIter = it.lex
+				if it.stopAt > 0 {
+					del.fault = vfc28Fault{At: it.stopAt, Stop: true}
+				}
+				_ = thanosblock.Delete(ctx, vfc28Logger, del, blk.ID)
+			}
+		}
+		_ = replicate(origin, e.bkt)
+		n := origin.opCount()
+		origin.beforeOp = nil
+		e.phase = "second-replication-run-on-the-now-stable-origin"
+		_ = replicate(origin, e.bkt)
+		return e, n
+	}
+	base, n := run(0, nil)
+	if !base.nontrv {
+		r.Inconclusive("replication from a quiescent origin did not make the block visible in the target")
+		return
+	}
+	for k := 1; k <= n; k++ {
+		for i := range inter {
+			e, _ := run(k, &inter[i])
+			r.Count("replications_with_concurrent_origin_deletion", 1)
+			if e.nontrv {
+				r.Count("replications_with_concurrent_origin_deletion:block_became_visible_in_target", 1)
+			}
+			if e.evals > 0 {
+				r.Distinct(fmt.Sprintf("%d|origin-deletion|%d|%s", c, k, inter[i].name))
+			}
+		}
+	}
+}
+
 // vfc28Fatal: a harness set-up failure makes the run inconclusive, never "held".
 func vfc28Fatal(t *testing.T, r *vfkit.Run, format string, args ...any) {
 	msg := "vfc28 harness set-up failed: " + fmt.Sprintf(format, args...)
@@ -814,7 +943,7 @@ func vfc28RunScenario(t *testing.T, r *vfkit.Run, c int, sc *vfc28Scenario) {
 func TestVF_C28(t *testing.T) {
 	r := vfkit.Start(t, "C28")
 	defer r.Finish()
-	r.Rule("case = one real TSDB block with 1..3 chunk segment files (plus, in half of the cases, a second one) whose LOCAL meta.json carries no thanos.files section | a correct one | a stale one inherited from a larger block | entries without sizes | entries for files that do not exist (cycled over the cases) x 4 drivers: block.Upload (concurrency 1|4), shipper.Shipper.Sync, replicationScheme.execute (invariant on the destination), block.Delete (with/without deletion mark, no-compact mark, already partial); " +
+	r.Rule("case = one real TSDB block with 1..3 chunk segment files (plus, in half of the cases, a second one) whose LOCAL meta.json carries no thanos.files section | a correct one | a stale one inherited from a larger block | entries without sizes | entries for files that do not exist (cycled over the cases) x 4 drivers: block.Upload (concurrency 1|4), shipper.Shipper.Sync, replicationScheme.execute (invariant on the destination; once with a quiescent origin and target-side faults, and once with a CONCURRENT ORIGIN DELETION: at every origin operation k of the replication the real block.Delete runs on the origin to completion | after marking | interrupted after every j of its own deletions, then replication continues and runs a second time), block.Delete (with/without deletion mark, no-compact mark, already partial); " +
 		"per driver one fault-free run and, for EVERY bucket operation k of that run, runs with a fault at k (fail-stop|fail-once x mutation lost|applied-without-reply) each followed by re-invocation until success; " +
 		"oracle = online checker called by the fault bucket after every applied mutation, reading the in-memory bucket directly: every block whose meta.json is present has every file meta.json lists with the recorded size; a block whose deletion started with a deletion mark keeps the mark while any other object of it exists; " +
 		"evaluation = one inspected bucket state; distinct = (case, driver variant, fault mode, k) of runs in which the fault was really injected and a state with a visible meta.json (listing files) or an unfinished marked deletion was inspected")
@@ -822,7 +951,7 @@ func TestVF_C28(t *testing.T) {
 	r.Require(int64(n)*300, n*40)
 	r.Assume("an object becomes visible atomically (objstore contract; the in-memory bucket commits an upload in one step)")
 	r.Assume("crash at point k == the operation sequence stops after a prefix: every prefix is inspected online; fail-stop runs add the error/cleanup paths; real SIGKILL adds nothing for a bucket-state invariant and is not used")
-	r.Assume("replication source blocks are complete (they were uploaded without faults)")
+	r.Assume("replication source blocks are complete when replication starts (they were uploaded without faults); the only concurrent origin actor is block.Delete, whose states are those block.Delete itself produces on this bucket (the in-memory bucket lists plain objects before sub-directories, so index is deleted before the chunk segments)")
 	tmp := t.TempDir()
 	for c := 0; c < n; c++ {
 		if !r.Want(c) {
@@ -885,6 +1014,13 @@ func TestVF_C28(t *testing.T) {
 		scs = append(scs, vfc28ShipperScenario(tsdbDir, blks, vfkit.Pick(rng, []int{0, 4}), hf, rng.Intn(2) == 0))
 		// 3. replication
 		scs = append(scs, vfc28ReplicateScenario(src, len(blks), blk.Segs))
+		if r.Thorough() || c%2 == 0 { // quick tier: every second block
+			r.Guard(c, "replicate.execute+origin-block-deletion", map[string]any{"segments": blk.Segs}, func() {
+				t0 := time.Now()
+				vfc28ReplicationUnderOriginDeletion(t, r, c, blk, len(blks), srcObjs)
+				r.Count("wall_ms(informational):replicate.execute+origin-block-deletion", int(time.Since(t0).Milliseconds()))
+			})
+		}
 		// 4. block.Delete
 		tmpl := objstore.NewInMemBucket()
 		if err := vfc28CopyInto(tmpl, srcObjs); err != nil {
